@@ -3,8 +3,8 @@ The refinement theorem on the fragment: the compiled flow and the reference flow
 fragment have the same index-resolved abstraction (category names not observed).
 -/
 import Rpft.Lemmas.CoreSwitch
-import Rpft.Lemmas.CoreImplAbs
-import Rpft.Lemmas.FlowSplit
+import Rpft.Lemmas.CoreChain
+import Rpft.Lemmas.FlowFuse
 set_option linter.unusedSimpArgs false
 set_option linter.unusedVariables false
 namespace Rpft.CoreSheet
@@ -20,10 +20,11 @@ theorem noIdsL_fragment : ∀ (rows : List CRow), (∀ c ∈ rows, rowOk c = tru
     have hu : c.row.nodeUuid = [] := by
       have := h c (by simp)
       simp only [rowOk, Bool.or_eq_true] at this
-      rcases this with (h1 | h1) | h1
+      rcases this with ((h1 | h1) | h1) | h1
       · exact (rowFacts c h1).nouid
       · simp only [exitRow, Bool.and_eq_true, List.isEmpty_iff] at h1; exact h1.2
       · simp only [gotoRow, Bool.and_eq_true, List.isEmpty_iff] at h1; exact h1.2
+      · simp only [noopRow, Bool.and_eq_true, List.isEmpty_iff] at h1; exact h1.1.2
     simp only [List.map_cons, noIdsL, toEvent, Event.noIds, Bool.and_eq_true]
     exact ⟨by rw [hu]; rfl, ih (fun c' hc' => h c' (by simp [hc']))⟩
 
@@ -38,52 +39,88 @@ theorem pass1_state {rows : List RRow} {out : List OutEdge} (h : pass1 rows = .o
     simp only [Except.ok.injEq] at h
     exact ⟨st, by simpa using hst, h.symm⟩
 
-theorem good_of_fragment (rows : List CRow) (outE : List OutEdge) (hf : inFragment rows = true)
-    (hp : pass1 (rows.map toRRow) = .ok outE) : (∀ c ∈ rows, rowOk c = true) ∧ Good rows outE := by
-  simp only [inFragment, Bool.and_eq_true, List.all_eq_true, hp] at hf
-  obtain ⟨h1, ⟨⟨h2, h3⟩, h4⟩, h5⟩ := hf
-  refine ⟨h1, ⟨h2, ?_, ?_, ?_⟩⟩
+theorem testRow_of_kind {c : CRow} (hk : isTestKind (kindOf c.row.type)) : testRow c = true := by
+  unfold testRow
+  rcases hk with hk | hk | hk
+  · have : c.row.type ∈ switchTypes := by
+      rcases switch_type_of_kind hk with h | h | h <;> rw [h] <;> decide
+    rw [List.contains_iff_mem.mpr this]; rfl
+  · rw [decide_eq_true hk]; simp
+  · rw [decide_eq_true hk]; simp
+
+theorem pass1F_state {rows : List CRow} {out : List OutEdge} (h : pass1F rows = .ok out) :
+    ∃ st : P1, (rows.zipIdx 0).foldlM (fun st (p : CRow × Nat) => pass1RowF rows st p.2 p.1) {} = .ok st ∧
+      out = st.out.reverse := by
+  unfold pass1F at h
+  simp only [bind, Except.bind, pure, Except.pure] at h
+  split at h
+  · cases h
+  · rename_i st hst
+    simp only [Except.ok.injEq] at h
+    exact ⟨st, by simpa using hst, h.symm⟩
+
+/-- what `inFragment` says, clause by clause (`rows`: the rows with the merged ones marked, `outE`:
+the out-edges of the reference reading, `outF`: those of the fused reading) -/
+theorem good_of_fragment (rows0 : List CRow) (outT : List OutEdge) (hf : inFragment rows0 = true)
+    (hp : pass1 ((annotate rows0).map toRRow) = .ok outT) :
+    ∃ outE, pass1F (annotate rows0) = .ok outE ∧ (∀ c ∈ annotate rows0, rowOk c = true) ∧
+      Good (annotate rows0) outE ∧ noopShape (annotate rows0) outE = true ∧
+      outE.foldlM (schedStep (annotate rows0)) [] = some [] ∧ firstOk (annotate rows0) = true ∧
+      chainsOk (annotate rows0) outT outE = true := by
+  have ha := annot_annotate rows0
+  unfold inFragment at hf
+  simp only at hf
+  generalize annotate rows0 = rows at hp ha hf
+  simp only [Bool.and_eq_true, List.all_eq_true] at hf
+  obtain ⟨h1, hf⟩ := hf
+  rw [hp] at hf
+  simp only at hf
+  cases hpF : pass1F rows with
+  | error err => rw [hpF] at hf; cases hf
+  | ok outE =>
+  rw [hpF] at hf
+  simp only [Bool.and_eq_true, List.all_eq_true] at hf
+  obtain ⟨⟨⟨⟨⟨⟨⟨h2, h3⟩, h4⟩, h5⟩, h6⟩, h7⟩, h8⟩, h9⟩ := hf
+  refine ⟨outE, rfl, h1, ⟨h2, ?_, ?_, ?_, ha⟩, h6, ?_, h8, h9⟩
   · intro j c hc hk
     have hj : j < rows.length := (List.getElem?_eq_some_iff.mp hc).1
     simp only [distinctTests, List.all_eq_true, List.mem_range] at h3
     have := h3 j hj
     rw [hc] at this
-    have hmem : (switchTypes.contains c.row.type || decide (kindOf c.row.type = .action)) = true := by
-      rcases hk with hk | hk
-      · have : c.row.type ∈ switchTypes := by
-          rcases switch_type_of_kind hk with h | h | h <;> rw [h] <;> decide
-        rw [List.contains_iff_mem.mpr this]; rfl
-      · rw [decide_eq_true hk, Bool.or_true]
-    have this2 : (!(switchTypes.contains c.row.type || decide (kindOf c.row.type = .action)) ||
+    have this2 : (!testRow c ||
         decide (((testsOf (kindOf c.row.type) (outE.filter (·.src = j))).map
           (fun e => refTest (kindOf c.row.type) e.cond)).Nodup)) = true := this
-    rw [hmem] at this2
+    rw [testRow_of_kind hk] at this2
     simpa using this2
   · intro j c hc hk e he
     have hj : j < rows.length := (List.getElem?_eq_some_iff.mp hc).1
     simp only [sameVars, List.all_eq_true, List.mem_range] at h4
     have := h4 j hj
     rw [hc] at this
-    have this2 : (!decide (kindOf c.row.type = .action) ||
+    have this2 : (!(decide (kindOf c.row.type = .action) || decide (kindOf c.row.type = .noOp)) ||
         ((outE.filter (·.src = j)).filter (fun e => !e.cond.blank)).all
           (fun e => decide (e.cond.var = implVar (outE.filter (·.src = j))))) = true := this
-    simp only [hk, decide_true, Bool.not_true, Bool.false_or, List.all_eq_true, decide_eq_true_eq] at this2
+    have hkk : (decide (kindOf c.row.type = .action) || decide (kindOf c.row.type = .noOp)) = true := by
+      rcases hk with hk | hk <;> rw [decide_eq_true hk] <;> simp
+    rw [hkk] at this2
+    simp only [Bool.not_true, Bool.false_or, List.all_eq_true, decide_eq_true_eq] at this2
     exact this2 e he
   · intro j c hc hk
     have hj : j < rows.length := (List.getElem?_eq_some_iff.mp hc).1
     simp only [freshNames, List.all_eq_true, List.mem_range] at h5
     have := h5 j hj
     rw [hc] at this
-    have hmem : (switchTypes.contains c.row.type || decide (kindOf c.row.type = .action)) = true := by
-      rcases hk with hk | hk
-      · have : c.row.type ∈ switchTypes := by
-          rcases switch_type_of_kind hk with h | h | h <;> rw [h] <;> decide
-        rw [List.contains_iff_mem.mpr this]; rfl
-      · rw [decide_eq_true hk, Bool.or_true]
-    have this2 : (!(switchTypes.contains c.row.type || decide (kindOf c.row.type = .action)) ||
+    have this2 : (!testRow c ||
         namesOk (kindOf c.row.type) (timeoutOf c.row) [] (testsOf (kindOf c.row.type) (outE.filter (·.src = j)))) = true := this
-    rw [hmem] at this2
+    rw [testRow_of_kind hk] at this2
     simpa using this2
+  · unfold noopSched at h7
+    cases hfo : outE.foldlM (schedStep rows) [] with
+    | none => rw [hfo] at h7; cases h7
+    | some pnd =>
+      rw [hfo] at h7
+      simp only [List.isEmpty_iff] at h7
+      rw [h7]
 
 theorem forall2_map_eq {α β γ} {R : α → β → Prop} {f : α → γ} {g : β → γ} {l1 : List α} {l2 : List β}
     (h : List.Forall₂ R l1 l2) (hfg : ∀ a b, R a b → f a = g b) : l1.map f = l2.map g := by
@@ -112,10 +149,14 @@ theorem forall2_map_eq_mem {α β γ} {R : α → β → Prop} {f : α → γ} {
 /-- one node: the reference node of row `j` and the compiled node have the same actions and the same
 decision, and corresponding destinations -/
 theorem node_abs_rel (rnf : Bool) (F r : Flow) (M : Maps) (ns : Array NodeM) (j : Nat) (n : NodeM) (c : CRow)
-    (es : List OutEdge) (hsim : NodeSim M ns n c es) (hfc : nodeRowOk c = true)
+    (post : List Str) (es : List OutEdge) (hsim : NodeSim M ns n c post es) (hfc : nodeRowOk c = true)
+    (hpost : kindOf c.row.type ≠ .action → post = [])
     (rows : List CRow) (hcj : rows[j]? = some c) (hok : ∀ e ∈ es, edgeOk rows e = true ∧ e.src = j)
     (hfn0 : n.fids.Nodup) :
-    AbsRel (DR F r M ns es) (absNode ⟨false, rnf⟩ r (mkNode j (toRRow c) es)) (absNode ⟨false, rnf⟩ F (renderNode n)) := by
+    (absNode ⟨false, rnf⟩ F (renderNode n)).acts = (absNode ⟨false, rnf⟩ r (mkNode j (toRRow c) es)).acts ++ post ∧
+    (absNode ⟨false, rnf⟩ F (renderNode n)).ask = (absNode ⟨false, rnf⟩ r (mkNode j (toRRow c) es)).ask ∧
+    List.Forall₂ (DR F r M ns es) (absNode ⟨false, rnf⟩ r (mkNode j (toRRow c) es)).dests
+      (absNode ⟨false, rnf⟩ F (renderNode n)).dests := by
   have hlast : ∀ (l : List OutEdge), (∀ e ∈ l, e ∈ es) → ∀ k, (l.getLast?).map (·.tgt) = some (Target.row k) →
       ∃ e ∈ es, e.tgt = Target.row k := by
     intro l hl k hk
@@ -146,10 +187,12 @@ theorem node_abs_rel (rnf : Bool) (F r : Flow) (M : Maps) (ns : Array NodeM) (j 
       · simp only [randomRow, Bool.and_eq_true, decide_eq_true_eq] at h1
         have h2 := kindOf_random; rw [← h1.1.1.1, hk] at h2; cases h2
     rw [mkNode_plain j (toRRow c) (es) hk hbl, absNode_plain_ref,
-      absNode_plain_cmp _ _ n c.row.action hp.router hp.acts, hact]
+      absNode_plain_cmp' _ _ n _ hp.router hp.acts, hact]
     refine ⟨rfl, rfl, List.Forall₂.cons ⟨n.dexitDest, _, hp.dest, hlast es hall, ?_, rfl⟩ List.Forall₂.nil⟩
     cases (es).getLast? <;> rfl
   | sw rr hk hp =>
+    have hp0 : post = [] := hpost (by rcases hk with h | h | h <;> rw [h] <;> decide)
+    subst hp0
     have hact : (toRRow c).act = none := by
       simp only [nodeRowOk, Bool.or_eq_true] at hfc
       rcases hfc with ((h1 | h1) | h1) | h1
@@ -277,10 +320,12 @@ theorem node_abs_rel (rnf : Bool) (F r : Flow) (M : Maps) (ns : Array NodeM) (j 
           exact List.Forall₂.nil
     have hop : rr.operand = (toRRow c).operand := hp.operand
     have hrn' : rr.resultName = some (toRRow c).saveName := hp.rname
-    refine ⟨rfl, ?_, hdests⟩
+    refine ⟨(List.append_nil _).symm, ?_, hdests⟩
     simp only
     rw [htests, hwait, hop, hrn']
   | fix rr sc hk hp =>
+    have hp0 : post = [] := hpost (by rcases hk with h | h | h <;> rw [h] <;> decide)
+    subst hp0
     have hact : (toRRow c).act = some (c.row.ownAction.getD []) := by
       simp only [nodeRowOk, Bool.or_eq_true] at hfc
       rcases hfc with ((h1 | h1) | h1) | h1
@@ -297,7 +342,7 @@ theorem node_abs_rel (rnf : Bool) (F r : Flow) (M : Maps) (ns : Array NodeM) (j 
         rcases hk with h2 | h2 | h2 <;> rw [h3] at h2 <;> cases h2
     have hk' : isFixedKind (toRRow c).kind := hk
     rw [absNode_fix_ref rnf r j (toRRow c) es hk', absNode_fix_cmp rnf F M ns n c es rr sc hk hp hfn0, hact]
-    refine ⟨rfl, rfl, ?_⟩
+    refine ⟨(List.append_nil _).symm, rfl, ?_⟩
     unfold fixAbs
     simp only
     refine List.Forall₂.cons ⟨sc.dest, _, hp.succ, hlast _ (hfil _ _ hall), ?_, rfl⟩ (forall2_replicate
@@ -305,6 +350,8 @@ theorem node_abs_rel (rnf : Bool) (F r : Flow) (M : Maps) (ns : Array NodeM) (j 
     · rw [lastTgt_eq]; rfl
     · rw [lastTgt_eq]; rfl
   | rnd rr hk hp =>
+    have hp0 : post = [] := hpost (by rw [hk]; decide)
+    subst hp0
     have hact : (toRRow c).act = none := by
       simp only [nodeRowOk, Bool.or_eq_true] at hfc
       rcases hfc with ((h1 | h1) | h1) | h1
@@ -320,7 +367,7 @@ theorem node_abs_rel (rnf : Bool) (F r : Flow) (M : Maps) (ns : Array NodeM) (j 
         exact h1.2
     have hk' : (toRRow c).kind = .splitRandom := hk
     rw [absNode_rnd_ref rnf r j (toRRow c) es hk' hact, absNode_rnd_cmp rnf F n rr c.row.saveName hp.router hp.acts hp.rname hfn0]
-    refine ⟨rfl, rfl, ?_⟩
+    refine ⟨(List.append_nil _).symm, rfl, ?_⟩
     unfold rndAbs
     simp only
     refine forall2_flip_map hp.rel ?_
@@ -330,6 +377,10 @@ theorem node_abs_rel (rnf : Bool) (F r : Flow) (M : Maps) (ns : Array NodeM) (j 
     simp only [Option.some.injEq] at hk2
     obtain ⟨e, he, het⟩ := buckets_tgt es b hb
     exact ⟨e, he, by rw [het]; exact hk2⟩
+  | nop rr hk hp =>
+    exfalso
+    have := isNoop_false_of_ok c hfc
+    rw [isNoop_of_kind hk] at this; cases this
 
 theorem zipIdx_filterMap {α β} (F : α → Nat → Option β) : ∀ (l : List α) (k : Nat),
     (l.zipIdx k).filterMap (fun p => F p.1 p.2) =
@@ -398,19 +449,248 @@ theorem filterMap_nil_of {α β} (f : α → Option β) (L : List α) (h : ∀ x
   | nil => rfl
   | cons x L ih => simp [List.filterMap_cons, h x (by simp), ih (fun y hy => h y (by simp [hy]))]
 
-/-- **the refinement theorem on the fragment, at the level of traces** -/
-theorem fragment_trace (rnf : Bool) (testTypes : List Str) (rows : List CRow) (out : Out) (r : Flow)
-    (hf : inFragment rows = true)
+theorem find?_first {α} (p : α → Bool) : ∀ (l : List α) (j : Nat) (x : α), l[j]? = some x → p x = true →
+    (∀ i y, i < j → l[i]? = some y → p y = false) → l.find? p = some x := by
+  intro l
+  induction l with
+  | nil => intro j x h; cases h
+  | cons a l ih =>
+    intro j x hx hp hmin
+    cases j with
+    | zero =>
+      simp only [List.getElem?_cons_zero, Option.some.injEq] at hx
+      subst hx
+      simp [List.find?_cons, hp]
+    | succ j =>
+      have ha : p a = false := hmin 0 a (Nat.succ_pos j) rfl
+      simp only [List.find?_cons, ha]
+      exact ih j x (by simpa using hx) hp (fun i y hi hy => hmin (i + 1) y (Nat.succ_lt_succ hi) (by simpa using hy))
+
+/-- a `no_op` row of the fragment performs no action -/
+theorem refAct_of_noop {c : CRow} (hok : rowOk c = true) (hn : isNoop c = true) : c.refAct = none := by
+  have hk := kind_of_noop hn
+  simp only [rowOk, Bool.or_eq_true] at hok
+  rcases hok with ((h1 | h1) | h1) | h1
+  · rw [isNoop_false_of_ok c h1] at hn; cases hn
+  · exfalso
+    simp only [exitRow, Bool.and_eq_true, Bool.or_eq_true, decide_eq_true_eq] at h1
+    rcases h1.1 with h2 | h2 <;> rw [h2] at hk
+    · rw [kindOf_hard] at hk; cases hk
+    · rw [kindOf_loose] at hk; cases hk
+  · exfalso
+    simp only [gotoRow, Bool.and_eq_true, decide_eq_true_eq] at h1
+    rw [h1.1, kindOf_goto] at hk; cases hk
+  · simp only [noopRow, Bool.and_eq_true, Option.isNone_iff_eq_none] at h1
+    exact h1.2
+
+/-- a row with a node that is not a `no_op` row is one of the node rows of the fragment -/
+theorem nodeRowOk_of_ok {c : CRow} (hok : rowOk c = true) (hn : isNodeRow c = true) (hno : isNoop c = false) :
+    nodeRowOk c = true := by
+  simp only [rowOk, Bool.or_eq_true] at hok
+  rcases hok with ((h1 | h1) | h1) | h1
+  · exact h1
+  · exfalso
+    simp only [exitRow, Bool.and_eq_true, Bool.or_eq_true, decide_eq_true_eq] at h1
+    unfold isNodeRow at hn
+    rcases h1.1 with h2 | h2 <;> rw [h2] at hn
+    · rw [kindOf_hard] at hn; cases hn
+    · rw [kindOf_loose] at hn; cases hn
+  · exfalso
+    simp only [gotoRow, Bool.and_eq_true, decide_eq_true_eq] at h1
+    unfold isNodeRow at hn
+    rw [h1.1, kindOf_goto] at hn; cases hn
+  · exfalso
+    simp only [noopRow, Bool.and_eq_true] at h1
+    rw [h1.1.1] at hno; cases hno
+
+/-! ### small facts about lists -/
+
+theorem filterMap_all_some {α β} (g : α → Option β) : ∀ (l : List α), (∀ x ∈ l, (g x).isSome = true) →
+    (l.filterMap g).length = l.length ∧ ∀ i : Nat, (l.filterMap g)[i]? = (l[i]?).bind g := by
+  intro l
+  induction l with
+  | nil => intro _; exact ⟨rfl, fun i => by simp⟩
+  | cons x l ih =>
+    intro h
+    obtain ⟨y, hy⟩ := Option.isSome_iff_exists.mp (h x (by simp))
+    obtain ⟨h1, h2⟩ := ih (fun z hz => h z (by simp [hz]))
+    simp only [List.filterMap_cons, hy]
+    refine ⟨by simp [h1], fun i => ?_⟩
+    cases i with
+    | zero => simp [hy]
+    | succ i => simpa using h2 i
+
+theorem getLastD_of_getElem? {α} : ∀ (l : List α) (d t : α) (i : Nat), i + 1 = l.length → l[i]? = some t →
+    l.getLastD d = t := by
+  intro l d t i hi ht
+  have hne : l ≠ [] := by intro e; rw [e] at hi; cases hi
+  rw [List.getLastD_eq_getLast?, List.getLast?_eq_getElem?]
+  have : l.length - 1 = i := by omega
+  rw [this, ht]; rfl
+
+theorem zip_tail_mem {α} : ∀ (l : List α) (i : Nat) (a b : α), l[i]? = some a → l[i + 1]? = some b →
+    (a, b) ∈ l.zip l.tail := by
+  intro l
+  induction l with
+  | nil => intro i a b h; cases h
+  | cons x l ih =>
+    intro i a b ha hb
+    cases l with
+    | nil => simp at hb
+    | cons y l =>
+      cases i with
+      | zero =>
+        simp only [List.getElem?_cons_zero, Option.some.injEq, Nat.zero_add, List.getElem?_cons_succ] at ha hb
+        subst ha hb
+        simp
+      | succ i =>
+        have := ih i a b (by simpa using ha) (by simpa using hb)
+        simp only [List.tail_cons, List.zip_cons_cons, List.mem_cons]
+        exact .inr (by simpa using this)
+
+theorem map_resrc_self (l : List OutEdge) (R : Nat) :
+    (l.filter (·.src = R)).map (fun e => ({ e with src := R } : OutEdge)) = l.filter (·.src = R) := by
+  conv => rhs; rw [← List.map_id (l.filter (·.src = R))]
+  apply List.map_congr_left
+  intro e he
+  have : e.src = R := by simpa using (List.mem_filter.mp he).2
+  cases e; simp only at this; subst this; rfl
+
+/-- what `chainsOk` says -/
+theorem chains_of_ok {rows : List CRow} {outE outF : List OutEdge} (h : chainsOk rows outE outF = true) :
+    (∀ e ∈ outF, ∀ t, e.tgt = Target.row t → ∃ ct, rows[t]? = some ct ∧ isNodeRow ct = true) ∧
+    (∀ R cR, rows[R]? = some cR → isNodeRow cR = true →
+      (∀ p ∈ (membersOf rows R).zip (membersOf rows R).tail, ∃ e, outE.filter (·.src = p.1) = [e] ∧
+          e.tgt = Target.row p.2 ∧ e.cond.blank = true) ∧
+      outF.filter (·.src = R) =
+        (outE.filter (·.src = (membersOf rows R).getLastD R)).map (fun e => { e with src := R })) := by
+  unfold chainsOk at h
+  simp only [Bool.and_eq_true, List.all_eq_true, List.mem_range] at h
+  obtain ⟨h1, h2⟩ := h
+  refine ⟨fun e he t ht => ?_, fun R cR hcR hn => ?_⟩
+  · have := h1 e he
+    rw [ht] at this
+    unfold tgtOwns at this
+    simp only at this
+    cases hct : rows[t]? with
+    | none => rw [hct] at this; cases this
+    | some ct => rw [hct] at this; exact ⟨ct, rfl, this⟩
+  · have hR : R < rows.length := (List.getElem?_eq_some_iff.mp hcR).1
+    have := h2 R hR
+    rw [hcR] at this
+    have hown : ownsNode cR = true := hn
+    simp only [hown, Bool.not_true, Bool.false_or, Bool.and_eq_true, List.all_eq_true, decide_eq_true_eq] at this
+    refine ⟨fun p hp => ?_, this.2⟩
+    have := this.1 p hp
+    split at this
+    · rename_i e he
+      simp only [Bool.and_eq_true, decide_eq_true_eq] at this
+      exact ⟨e, he, this.1, this.2⟩
+    · cases this
+
+
+/-- an action row of the fragment performs its action, as the documentation says -/
+theorem act_of_named {c : CRow} (hok : rowOk c = true) (hna : isNamedAct c = true) :
+    ∃ a, c.row.action = some a ∧ (toRRow c).act = some a := by
+  have hsp : specialTypes.contains c.row.type = false := by
+    unfold isNamedAct at hna
+    simp only [Bool.and_eq_true, Bool.not_eq_true'] at hna; exact hna.1
+  obtain ⟨_, _, _, _, _, _, _, h8, h9, h10, h11, _⟩ := not_special hsp
+  have hpl : plainActionRow c = true := by
+    simp only [rowOk, Bool.or_eq_true] at hok
+    rcases hok with ((hf | hf) | hf) | hf
+    · simp only [nodeRowOk, Bool.or_eq_true] at hf
+      rcases hf with ((h1 | h1) | h1) | h1
+      · exact h1
+      · simp only [switchRow, Bool.and_eq_true] at h1
+        have := h1.1.1.1
+        rw [List.contains_iff_mem] at this
+        have h2 : c.row.type ∈ specialTypes := by
+          simp only [switchTypes, List.map_cons, List.map_nil, List.mem_cons, List.not_mem_nil, or_false] at this
+          rcases this with h | h | h <;> rw [h] <;> decide
+        rw [List.contains_iff_mem.mpr h2] at hsp; cases hsp
+      · simp only [fixedRow, Bool.and_eq_true] at h1
+        have := fixed_type h1.1.1.1
+        have h2 : c.row.type ∈ specialTypes := by rcases this with h | h | h <;> rw [h] <;> decide
+        rw [List.contains_iff_mem.mpr h2] at hsp; cases hsp
+      · simp only [randomRow, Bool.and_eq_true, decide_eq_true_eq] at h1
+        have h2 : c.row.type ∈ specialTypes := by rw [h1.1.1.1]; decide
+        rw [List.contains_iff_mem.mpr h2] at hsp; cases hsp
+    · simp only [exitRow, Bool.and_eq_true, Bool.or_eq_true, decide_eq_true_eq] at hf
+      rcases hf.1 with h1 | h1
+      · exact absurd h1 h10
+      · exact absurd h1 h11
+    · simp only [gotoRow, Bool.and_eq_true, decide_eq_true_eq] at hf
+      exact absurd hf.1 h9
+    · simp only [noopRow, isNoop, Bool.and_eq_true, decide_eq_true_eq] at hf
+      exact absurd hf.1.1 h8
+  simp only [plainActionRow, Bool.and_eq_true, Bool.or_eq_true, decide_eq_true_eq] at hpl
+  obtain ⟨⟨_, hnm⟩, hact⟩ := hpl
+  have hne := name_ne_of_named hna
+  have hsome : c.row.action.isSome = true := by
+    rcases hnm with h | h
+    · exact absurd (List.isEmpty_iff.mp h) hne
+    · exact h
+  obtain ⟨a, ha⟩ := Option.isSome_iff_exists.mp hsome
+  exact ⟨a, ha, by show c.refAct = some a; rw [← hact, ha]⟩
+
+/-- an action row that is not merged performs its action, as the documentation says -/
+theorem act_of_action_row {c : CRow} (hok : rowOk c = true) (hn : isNodeRow c = true)
+    (hk : kindOf c.row.type = .action) : (toRRow c).act = c.row.action := by
+  have hfc := nodeRowOk_of_ok hok hn (by
+    cases hh : isNoop c with
+    | false => rfl
+    | true => have := kind_of_noop hh; rw [hk] at this; cases this)
+  simp only [nodeRowOk, Bool.or_eq_true] at hfc
+  rcases hfc with ((h1 | h1) | h1) | h1
+  · simp only [plainActionRow, Bool.and_eq_true, decide_eq_true_eq] at h1
+    exact h1.2.symm
+  · simp only [switchRow, Bool.and_eq_true] at h1
+    have := switch_type h1.1.1.1
+    rcases kindOf_switch this with h2 | h2 | h2 <;> rw [hk] at h2 <;> cases h2
+  · simp only [fixedRow, Bool.and_eq_true] at h1
+    have := fixed_type h1.1.1.1
+    rcases kindOf_fixed this with h2 | h2 | h2 <;> rw [hk] at h2 <;> cases h2
+  · simp only [randomRow, Bool.and_eq_true, decide_eq_true_eq] at h1
+    have h2 := kindOf_random; rw [← h1.1.1.1, hk] at h2; cases h2
+
+theorem postUpTo_unnamed (rows : List CRow) (kg R : Nat) (cR : CRow) (hc : rows[R]? = some cR)
+    (hn : isNamedAct cR = false) : postUpTo rows kg R = [] := by
+  unfold postUpTo; rw [hc]; simp [hn]
+
+/-- **the refinement theorem on the fragment, at the level of traces**; `rows`: the rows with the merged
+ones marked, `outE` / `outF`: the out-edges of the reference reading and of the fused reading -/
+theorem fragment_traceA (rnf : Bool) (testTypes : List Str) (rows : List CRow) (out : Out) (r : Flow)
+    (outE outF : List OutEdge)
+    (hfr : ∀ c ∈ rows, rowOk c = true) (hp1 : pass1 (rows.map toRRow) = .ok outE) (hpF : pass1F rows = .ok outF)
+    (hgood : Good rows outF) (hshape : noopShape rows outF = true)
+    (hsched : outF.foldlM (schedStep rows) [] = some []) (hfirst : firstOk rows = true)
+    (hch : chainsOk rows outE outF = true)
     (hc : compile RefFlow.noArgsTests testTypes (rows.map toEvent) = .ok out)
     (hr : refFlow (rows.map toRRow) = .ok r) (env : Nat → Nat) (len : Nat) :
     trace ⟨false, rnf⟩ r env len = trace ⟨false, rnf⟩ (renderOut out) env len := by
   obtain ⟨s, hrun, hl, ho⟩ := compile_ok hc
-  obtain ⟨outE, hp1, hrn⟩ := refFlow_nodes _ _ hr
-  obtain ⟨hfr, hgood⟩ := good_of_fragment rows outE hf hp1
-  obtain ⟨st, hfold, hoe⟩ := pass1_state hp1
-  obtain ⟨M, hrel⟩ := wp_of_run (rows_sim rows outE hgood rows 0 (fun i c hi => by simpa using hi) hfr
-    ⟨fun _ => 0, fun _ => none⟩ _ {} st (rel_init rows _ (fun _ => rfl) _ testTypes rfl) hfold (by rw [hoe])) hrun
-  simp only [Nat.zero_add] at hrel
+  obtain ⟨outE', hp1', hrn⟩ := refFlow_nodes _ _ hr
+  rw [hp1] at hp1'; injection hp1' with hp1'; subst hp1'
+  obtain ⟨stT, hfold, hoe⟩ := pass1F_state hpF
+  obtain ⟨M, st, pnd, hrel, hs⟩ := wp_of_run (rows_simN rows outF hgood hshape ⟨_, hsched⟩ rows 0
+    (fun i c hi => by simpa using hi) hfr
+    ⟨fun _ => 0, fun _ => none, fun _ => false, fun _ => false⟩ _ {} stT
+    (relN_init rows _ (fun _ => rfl) (fun _ => rfl) (fun _ => rfl) _ testTypes rfl) hfold (by rw [hoe])) hrun
+  simp only [Nat.zero_add] at hrel hs
+  have ha := hgood.annot
+  obtain ⟨hC0, hC12⟩ := chains_of_ok hch
+  -- at the end no edge is waiting
+  have hpnd : pnd = [] := by
+    have := hs.fold
+    rw [← hoe, hsched] at this
+    injection this with this
+    exact this.symm
+  subst hpnd
+  have hsp : ∀ j, outOf stT j = outOf st j := by
+    intro j
+    have := hs.split j
+    simpa using this
   -- identifiers of the compiled flow are pairwise different
   have hids := noIdsL_fragment rows hfr
   have a := final_ainv ⟨True, True⟩ ⟨fun _ => okIdsL_of_noIdsL _ hids, fun _ => hids⟩ hrun
@@ -422,7 +702,7 @@ theorem fragment_trace (rnf : Bool) (testTypes : List Str) (rows : List CRow) (o
   have hRU : (r.nodes.map (·.uuid)).Nodup := (refFlow_closed _ _ hr).1
   -- the reference nodes, per row
   obtain ⟨fR, hfR⟩ : ∃ fR : Nat → Option Node, fR = fun j => (rows[j]?).bind (fun c =>
-      if isNodeRow c then some (mkNode j (toRRow c) (outE.filter (·.src = j))) else none) := ⟨_, rfl⟩
+      if (kindOf c.row.type).isNode then some (mkNode j (toRRow c) (outE.filter (·.src = j))) else none) := ⟨_, rfl⟩
   have hrn2 : r.nodes = (List.range rows.length).filterMap fR := by
     rw [hrn, hfR]
     unfold refNodes
@@ -439,52 +719,91 @@ theorem fragment_trace (rnf : Bool) (testTypes : List Str) (rows : List CRow) (o
   obtain ⟨gC, hgC⟩ : ∃ gC : Nat → List Node, gC = fun j =>
       ((nodeIdxs rows M j).filterMap (fun i => s.nodes[i]?)).map renderNode := ⟨_, rfl⟩
   have hFn : (renderOut out).nodes = (List.range rows.length).flatMap gC := by
-    simp only [renderOut, ho, emit_rel hrel, filterMap_flatMap', map_flatMap', hgC]
+    simp only [renderOut, ho, emit_rel hrel hs, filterMap_flatMap', map_flatMap', hgC]
   generalize renderOut out = F at hU hFn ⊢
-  -- the correspondence: row `j` ↦ index of its reference node, index of its compiled node
-  obtain ⟨V, hV⟩ : ∃ V : Nat → Prop, V = fun j => ∃ c, rows[j]? = some c ∧ isNodeRow c = true := ⟨_, rfl⟩
-  obtain ⟨ia, hia⟩ : ∃ ia : Nat → Nat, ia = fun j => (((List.range rows.length).take j).filterMap fR).length := ⟨_, rfl⟩
-  obtain ⟨ib, hib⟩ : ∃ ib : Nat → Nat, ib = fun j => (((List.range rows.length).take j).flatMap gC).length := ⟨_, rfl⟩
-  obtain ⟨ir, hir⟩ : ∃ ir : Nat → Option Nat, ir = fun j => (M.rOf j).map (fun _ => ib j + 1) := ⟨_, rfl⟩
-  have hsub : ∀ j, ∀ e ∈ outOf st j, e ∈ outE ∧ e.src = j := by
+  -- the correspondence: the `i`-th row of the chain of row `R` ↦ index of its reference node; index of
+  -- the compiled node of `R`, in which its actions start at position `i`
+  obtain ⟨iaR, hia⟩ : ∃ iaR : Nat → Nat, iaR = fun j => (((List.range rows.length).take j).filterMap fR).length := ⟨_, rfl⟩
+  obtain ⟨ibR, hib⟩ : ∃ ibR : Nat → Nat, ibR = fun j => (((List.range rows.length).take j).flatMap gC).length := ⟨_, rfl⟩
+  obtain ⟨mem, hmem⟩ : ∃ mem : Nat → Nat → Nat, mem = fun R i => ((membersOf rows R)[i]?).getD R := ⟨_, rfl⟩
+  obtain ⟨V, hV⟩ : ∃ V : Nat × Nat → Prop, V = fun p => ∃ c, rows[p.1]? = some c ∧ isNodeRow c = true ∧ M.el p.1 = false ∧
+      p.2 < (membersOf rows p.1).length := ⟨_, rfl⟩
+  obtain ⟨ia, hiaP⟩ : ∃ ia : Nat × Nat → Nat, ia = fun p => iaR (mem p.1 p.2) := ⟨_, rfl⟩
+  obtain ⟨ib, hibP⟩ : ∃ ib : Nat × Nat → Nat, ib = fun p => ibR p.1 := ⟨_, rfl⟩
+  obtain ⟨off, hoff⟩ : ∃ off : Nat × Nat → Nat, off = fun p => p.2 := ⟨_, rfl⟩
+  obtain ⟨ir, hir⟩ : ∃ ir : Nat × Nat → Option Nat, ir = fun p => (M.rOf p.1).map (fun _ => ibR p.1 + 1) := ⟨_, rfl⟩
+  have hmem0 : ∀ R, mem R 0 = R := by intro R; rw [hmem]; simp [membersOf_head]
+  have hmpos : ∀ R, 0 < (membersOf rows R).length := by
+    intro R
+    have := membersOf_head rows R
+    exact (List.getElem?_eq_some_iff.mp this).1
+  have hsub : ∀ j, ∀ e ∈ outOf st j, e ∈ outF ∧ e.src = j ∧ e ∈ st.out := by
     intro j e he
-    have := List.mem_filter.mp he
-    exact ⟨by rw [hoe]; exact this.1, by simpa using this.2⟩
-  have hes : ∀ j, outE.filter (·.src = j) = outOf st j := by intro j; rw [hoe]; rfl
+    have h1 := List.mem_filter.mp he
+    have h2 : e ∈ outOf stT j := by rw [hsp]; exact he
+    have h3 := List.mem_filter.mp h2
+    exact ⟨by rw [hoe]; exact h3.1, by simpa using h1.2, by simpa using h1.1⟩
+  have hes : ∀ j, outF.filter (·.src = j) = outOf st j := by intro j; rw [← hsp, hoe]; rfl
   -- what the rows give
-  have hrowR : ∀ (j : Nat) (c : CRow), rows[j]? = some c → isNodeRow c = true →
-      r.nodes[ia j]? = some (mkNode j (toRRow c) (outOf st j)) := by
+  have hrowR : ∀ (j : Nat) (c : CRow), rows[j]? = some c → (kindOf c.row.type).isNode = true →
+      r.nodes[iaR j]? = some (mkNode j (toRRow c) (outE.filter (·.src = j))) := by
     intro j c hcj hn
     have hj : j < rows.length := (List.getElem?_eq_some_iff.mp hcj).1
     have hrt : (List.range rows.length)[j]? = some j := by simp [hj]
-    have hfr' : fR j = some (mkNode j (toRRow c) (outOf st j)) := by rw [hfR]; simp [hcj, hn, hes]
+    have hfr' : fR j = some (mkNode j (toRRow c) (outE.filter (·.src = j))) := by rw [hfR]; simp [hcj, hn]
     rw [hrn2, hia]
     exact filterMap_pos fR (List.range rows.length) j j _ hrt hfr'
-  have hrowC : ∀ (j : Nat) (c : CRow), rows[j]? = some c → isNodeRow c = true →
-      ∃ n, s.nodes[M.nOf j]? = some n ∧ RowSim M s.nodes n c (outOf st j) (M.rOf j) ∧
-        F.nodes[ib j]? = some (renderNode n) ∧
-        ∀ i' n', M.rOf j = some i' → s.nodes[i']? = some n' → F.nodes[ib j + 1]? = some (renderNode n') := by
-    intro j c hcj hn
+  have hrowC : ∀ (j : Nat) (c : CRow), rows[j]? = some c → isNodeRow c = true → M.el j = false →
+      ∃ n, s.nodes[M.nOf j]? = some n ∧
+        RowSim M s.nodes n c (postUpTo rows rows.length j) (outOf st j) (M.rOf j) ∧
+        F.nodes[ibR j]? = some (renderNode n) ∧
+        ∀ i' n', M.rOf j = some i' → s.nodes[i']? = some n' → F.nodes[ibR j + 1]? = some (renderNode n') := by
+    intro j c hcj hn hel
     have hj : j < rows.length := (List.getElem?_eq_some_iff.mp hcj).1
     have hrt : (List.range rows.length)[j]? = some j := by simp [hj]
-    obtain ⟨n, hn', hsim⟩ := hrel.node j c ⟨.inl hj, hcj, hn⟩
+    obtain ⟨n, hn', hsim⟩ := hrel.node j c ⟨.inl hj, hcj, hn, hel⟩
     refine ⟨n, hn', hsim, ?_, ?_⟩
-    · have h0 : 0 < (gC j).length := by rw [hgC]; simp [nodeIdxs, hcj, hn, idxs, hn']
+    · have h0 : 0 < (gC j).length := by rw [hgC]; simp [nodeIdxs, hcj, hn, hel, idxs, hn']
       have := flatMap_pos gC (List.range rows.length) j j hrt 0 h0
       rw [hFn, hib]
       simp only [Nat.add_zero] at this
       rw [this, hgC]
-      simp [nodeIdxs, hcj, hn, idxs, hn']
+      simp [nodeIdxs, hcj, hn, hel, idxs, hn']
     · intro i' n' hro hn''
-      have h1 : 1 < (gC j).length := by rw [hgC]; simp [nodeIdxs, hcj, hn, idxs, hn', hro, hn'']
+      have h1 : 1 < (gC j).length := by rw [hgC]; simp [nodeIdxs, hcj, hn, hel, idxs, hn', hro, hn'']
       have := flatMap_pos gC (List.range rows.length) j j hrt 1 h1
       rw [hFn, hib]
       rw [this, hgC]
-      simp [nodeIdxs, hcj, hn, idxs, hn', hro, hn'']
+      simp [nodeIdxs, hcj, hn, hel, idxs, hn', hro, hn'']
+  -- where a row with a node is found in the two flows
+  have hidxR : ∀ (t : Nat) (ct : CRow), rows[t]? = some ct → (kindOf ct.row.type).isNode = true →
+      destIdx r ((some (Target.row t)).bind tgtDest) = some (some (iaR t)) := by
+    intro t ct hct hnt
+    have hposR := hrowR t ct hct hnt
+    have hR := findNode_unique r _ (nodeId t) _ hposR (mkNode_uuid _ _ _) hRU
+    simp [destIdx, tgtDest, hR]
+  have hidxC : ∀ (t : Nat) (ct : CRow) (m : NodeM) (d : Dest), rows[t]? = some ct → isNodeRow ct = true →
+      M.el t = false → s.nodes[M.nOf t]? = some m → d = .node m.uid →
+      destIdx F (renderDest d) = some (some (ibR t)) := by
+    intro t ct m d hct hnt hel hm hdm
+    obtain ⟨n, hn', _, hposC, _⟩ := hrowC t ct hct hnt hel
+    rw [hm] at hn'; injection hn' with hn'; subst hn'
+    have hF := findNode_unique F _ m.uid (renderNode m) hposC rfl hU
+    simp [hdm, renderDest, destIdx, hF]
+  have hV0 : ∀ (t : Nat) (ct : CRow), rows[t]? = some ct → isNodeRow ct = true → M.el t = false → V (t, 0) := by
+    intro t ct hct hnt hel; rw [hV]; exact ⟨ct, hct, hnt, hel, hmpos t⟩
+  have hnode0 : ∀ (t : Nat) (ct : CRow), rows[t]? = some ct → isNodeRow ct = true → M.el t = false →
+      DRelO (absFlow ⟨false, rnf⟩ r) V ia ib off (some (some (iaR t))) (some (some (ibR t))) := by
+    intro t ct hct hnt hel
+    have := DRelO.node (A := absFlow ⟨false, rnf⟩ r) (V := V) (ia := ia) (ib := ib) (off := off) (t, 0)
+      (hV0 t ct hct hnt hel) (by rw [hoff])
+    rw [hiaP, hibP] at this
+    simp only [hmem0] at this
+    rw [hiaP, hibP]
+    exact this
   -- corresponding destinations resolve to corresponding indices
-  have htgts := pass1_targets _ _ hp1
-  have dr_to_drel : ∀ (es : List OutEdge) (x y : Option (Option Nat)), (∀ e ∈ es, e ∈ outE) →
-      DR F r M s.nodes es x y → DRel V ia ib x y := by
+  have dr_to_drel : ∀ (es : List OutEdge) (x y : Option (Option Nat)), (∀ e ∈ es, e ∈ outF ∧ e ∈ st.out) →
+      DR F r M s.nodes es x y → DRelO (absFlow ⟨false, rnf⟩ r) V ia ib off x y := by
     intro es x y hes' ⟨d, t, hd, hv, hx, hy⟩
     subst hx hy
     cases t with
@@ -497,117 +816,326 @@ theorem fragment_trace (rnf : Bool) (testTypes : List Str) (rows : List CRow) (o
       | row t =>
         obtain ⟨m, hm, hdm⟩ := hd
         obtain ⟨e, he, het⟩ := hv t rfl
-        have hnode := htgts e (hes' e he)
-        rw [het] at hnode
-        obtain ⟨rr, hrr, hrk⟩ := hnode
-        simp only [List.getElem?_map] at hrr
-        cases hct : rows[t]? with
-        | none => rw [hct] at hrr; cases hrr
-        | some ct =>
-          rw [hct] at hrr
-          simp only [Option.map_some, Option.some.injEq] at hrr
-          have hnt : isNodeRow ct = true := by rw [← hrr] at hrk; exact hrk
-          obtain ⟨n, hn', _, hposC, _⟩ := hrowC t ct hct hnt
-          rw [hm] at hn'; injection hn' with hn'; subst hn'
-          have hposR := hrowR t ct hct hnt
-          have hF := findNode_unique F _ m.uid (renderNode m) hposC rfl hU
-          have hR := findNode_unique r _ (nodeId t) _ hposR (mkNode_uuid _ _ _) hRU
-          have e1 : destIdx r ((some (Target.row t)).bind tgtDest) = some (some (ia t)) := by
-            simp [destIdx, tgtDest, hR]
-          have e2 : destIdx F (renderDest d) = some (some (ib t)) := by
-            simp [hdm, renderDest, destIdx, hF]
-          rw [e1, e2]
-          exact .node t (by rw [hV]; exact ⟨ct, hct, hnt⟩)
-  have hnok : ∀ (j : Nat) (c : CRow), rows[j]? = some c → isNodeRow c = true → nodeRowOk c = true := by
-    intro j c hcj hn
-    have := hfr c (List.mem_of_getElem? hcj)
-    simp only [rowOk, Bool.or_eq_true] at this
-    rcases this with (h1 | h1) | h1
-    · exact h1
-    · exfalso
-      simp only [exitRow, Bool.and_eq_true, Bool.or_eq_true, decide_eq_true_eq] at h1
-      unfold isNodeRow at hn
-      rcases h1.1 with h2 | h2 <;> rw [h2] at hn
-      · rw [kindOf_hard] at hn; cases hn
-      · rw [kindOf_loose] at hn; cases hn
-    · exfalso
-      simp only [gotoRow, Bool.and_eq_true, decide_eq_true_eq] at h1
-      unfold isNodeRow at hn
-      rw [h1.1, kindOf_goto] at hn; cases hn
+        obtain ⟨ct, hct, hnt⟩ := hC0 e (hes' e he).1 t het
+        have hkt := isNodeRow_kind hnt
+        have htl : t < rows.length := (List.getElem?_eq_some_iff.mp hct).1
+        rw [hidxR t ct hct hkt]
+        cases hel : M.el t with
+        | false =>
+          rw [hidxC t ct m d hct hnt hel hm hdm]
+          exact hnode0 t ct hct hnt hel
+        | true =>
+          -- a `no_op` row that has disappeared: the reference flow passes through its empty node
+          have hfrt : M.fr t = false := hrel.tgtfr e (hes' e he).2 t het
+          obtain ⟨⟨ct', hct', hnoop⟩, b, T, cT, hout, hbb, hbt, hnOf, hcT, hnT, hnnT⟩ := hs.elided t hel hfrt htl
+          rw [hct] at hct'; injection hct' with hct'; subst hct'
+          have helT : M.el T = false := hrel.elno T cT hcT hnnT
+          rw [hnOf] at hm
+          rw [hidxC T cT m d hcT hnT helT hm hdm]
+          -- the out-edges of the junction in the two readings
+          obtain ⟨_, hlast⟩ := hC12 t ct hct hnt
+          have hnna : isNamedAct ct = false := by
+            cases hh : isNamedAct ct with
+            | false => rfl
+            | true => have := isNoop_of_named hh; rw [hnoop] at this; cases this
+          rw [membersOf_single hct hnna] at hlast
+          simp only [List.getLastD_cons, List.getLastD_nil] at hlast
+          rw [map_resrc_self, hes, ← hsp, hout] at hlast
+          have hposR := hrowR t ct hct hkt
+          rw [← hlast, mkNode_noop_plain t (toRRow ct) [b] (kind_of_noop hnoop)
+            (refAct_of_noop (hfr ct (List.mem_of_getElem? hct)) hnoop)
+            (fun e he => by rw [List.mem_singleton.mp he]; exact hbb)] at hposR
+          have hA : (absFlow ⟨false, rnf⟩ r)[iaR t]? = some
+              { acts := [], ask := none, dests := [destIdx r ((some (Target.row T)).bind tgtDest)] } := by
+            rw [absFlow_getElem?, hposR]
+            simp only [Option.map_some, absNode_plain_ref, Option.toList, List.getLast?_singleton,
+              Option.bind_some, hbt]
+          refine .skip (iaR t) _ _ hA rfl rfl ?_
+          simp only [List.head?_cons, Option.join_some]
+          rw [hidxR T cT hcT (isNodeRow_kind hnT)]
+          exact hnode0 T cT hcT hnT helT
   -- the split
-  have hsplit : SplitOf (absFlow ⟨false, rnf⟩ r) (absFlow ⟨false, rnf⟩ F) V ia ib ir := by
+  have hfuse : FuseOf (absFlow ⟨false, rnf⟩ r) (absFlow ⟨false, rnf⟩ F) V ia ib off ir := by
     constructor
-    intro j hvj
+    rintro ⟨R, i⟩ hvj
     rw [hV] at hvj
-    obtain ⟨c, hcj, hn⟩ := hvj
-    have hposR := hrowR j c hcj hn
-    obtain ⟨n, hn', hsim, hposC, hposC'⟩ := hrowC j c hcj hn
-    refine ⟨absNode ⟨false, rnf⟩ r (mkNode j (toRRow c) (outOf st j)), by rw [absFlow_getElem?, hposR]; rfl, ?_⟩
-    generalize hro : M.rOf j = ro at hsim
-    cases hsim with
-    | one hsim =>
-      left
-      have hrel1 := node_abs_rel rnf F r M s.nodes j n c (outOf st j) hsim (hnok j c hcj hn) rows hcj
-        (fun e he => ⟨hgood.ok e (hsub j e he).1, (hsub j e he).2⟩) (hI.nodup _ n hn')
-      refine ⟨by rw [hir]; simp [hro], absNode ⟨false, rnf⟩ F (renderNode n), by rw [absFlow_getElem?, hposC]; rfl,
-        hrel1.1, hrel1.2.1, ?_⟩
-      exact hrel1.2.2.imp (fun x y hxy => dr_to_drel _ x y (fun e he => (hsub j e he).1) hxy)
-    | impl i' n' rr hk hp =>
-      right
-      have hact : (toRRow c).act = c.row.action := by
-        have hfc := hnok j c hcj hn
-        simp only [nodeRowOk, Bool.or_eq_true] at hfc
-        rcases hfc with ((h1 | h1) | h1) | h1
-        · simp only [plainActionRow, Bool.and_eq_true, decide_eq_true_eq] at h1
-          exact h1.2.symm
-        · simp only [switchRow, Bool.and_eq_true] at h1
-          have := switch_type h1.1.1.1
-          rcases kindOf_switch this with h2 | h2 | h2 <;> rw [hk] at h2 <;> cases h2
-        · simp only [fixedRow, Bool.and_eq_true] at h1
-          have := fixed_type h1.1.1.1
-          rcases kindOf_fixed this with h2 | h2 | h2 <;> rw [hk] at h2 <;> cases h2
-        · simp only [randomRow, Bool.and_eq_true, decide_eq_true_eq] at h1
-          have h2 := kindOf_random; rw [← h1.1.1.1, hk] at h2; cases h2
-      have hv : ∀ e ∈ (outOf st j).filter (fun e => !e.cond.blank), e.cond.var = implVar (outOf st j) := by
+    obtain ⟨cR, hcR, hnR, helR, hi⟩ := hvj
+    simp only at hcR hnR helR hi
+    have hokR := hfr cR (List.mem_of_getElem? hcR)
+    obtain ⟨n, hn', hsim, hposC, hposC'⟩ := hrowC R cR hcR hnR helR
+    obtain ⟨hlink, hlast⟩ := hC12 R cR hcR hnR
+    -- the row of the chain
+    obtain ⟨t, ht⟩ : ∃ t, (membersOf rows R)[i]? = some t := ⟨_, List.getElem?_eq_getElem hi⟩
+    have hmi : mem R i = t := by rw [hmem]; simp [ht]
+    -- it is an action row with an action, or the only row of its chain
+    have htrow : ∃ ct, rows[t]? = some ct ∧ (kindOf ct.row.type).isNode = true ∧
+        ((i = 0 ∧ t = R ∧ ct = cR) ∨
+         (0 < i ∧ isNamedAct cR = true ∧ isNamedAct ct = true ∧ ct.merged = true)) := by
+      cases i with
+      | zero =>
+        have : t = R := by rw [membersOf_head] at ht; injection ht with ht; exact ht.symm
+        subst this
+        exact ⟨cR, hcR, isNodeRow_kind hnR, .inl ⟨rfl, rfl, rfl⟩⟩
+      | succ i' =>
+        have hmt : t ∈ (membersOf rows R).tail := by
+          rw [List.mem_iff_getElem?]
+          exact ⟨i', by rw [List.getElem?_tail]; exact ht⟩
+        obtain ⟨h1, _, ct, hct, h3, h4, _⟩ := membersOf_mem_tail hcR hmt
+        exact ⟨ct, hct, by rw [kindOf_of_named h4]; rfl, .inr ⟨Nat.succ_pos _, h1, h4, h3⟩⟩
+    obtain ⟨ct, hct, hkt, hcase⟩ := htrow
+    have hposR := hrowR t ct hct hkt
+    have hiaj : ia (R, i) = iaR t := by rw [hiaP]; simp only; rw [hmi]
+    have hibj : ib (R, i) = ibR R := by rw [hibP]
+    have hoffj : off (R, i) = i := by rw [hoff]
+    -- the actions of the compiled node: those of the chain, in order
+    have hpostlen : isNamedAct cR = true →
+        (postUpTo rows rows.length R).length = (membersOf rows R).length - 1 ∧
+        ∀ i' t', (membersOf rows R)[i' + 1]? = some t' →
+          (postUpTo rows rows.length R)[i']? = (rows[t']?).bind (fun c => c.row.action) := by
+      intro hnaR
+      rw [postUpTo_members rows R cR hcR hnaR]
+      have hall : ∀ x ∈ (membersOf rows R).tail, ((rows[x]?).bind (fun c => c.row.action)).isSome = true := by
+        intro x hx
+        obtain ⟨_, _, cx, hcx, _, hnax, _⟩ := membersOf_mem_tail hcR hx
+        obtain ⟨ax, hax, _⟩ := act_of_named (hfr cx (List.mem_of_getElem? hcx)) hnax
+        rw [hcx]; simp [hax]
+      obtain ⟨h1, h2⟩ := filterMap_all_some _ _ hall
+      refine ⟨by rw [h1, List.length_tail], fun i' t' ht' => ?_⟩
+      rw [h2 i', List.getElem?_tail, ht']; rfl
+    have hes_R : outOf st R = (outE.filter (·.src = (membersOf rows R).getLastD R)).map (fun e => { e with src := R }) := by
+      rw [← hes]; exact hlast
+    have hokE : ∀ e ∈ outOf st R, edgeOk rows e = true ∧ e.src = R :=
+      fun e he => ⟨hgood.ok e (hsub R e he).1, (hsub R e he).2.1⟩
+    have hesub : ∀ e ∈ outOf st R, e ∈ outF ∧ e ∈ st.out := fun e he => ⟨(hsub R e he).1, (hsub R e he).2.2⟩
+    refine ⟨absNode ⟨false, rnf⟩ r (mkNode t (toRRow ct) (outE.filter (·.src = t))),
+      absNode ⟨false, rnf⟩ F (renderNode n),
+      by rw [hiaj, absFlow_getElem?, hposR]; rfl, by rw [hibj, absFlow_getElem?, hposC]; rfl, ?_⟩
+    rw [hoffj]
+    by_cases hka : kindOf cR.row.type = .action
+    swap
+    · -- a row of another kind: the only row of its chain
+      have hnaR : isNamedAct cR = false := by
+        cases hh : isNamedAct cR with
+        | false => rfl
+        | true => exact absurd (kindOf_of_named hh) hka
+      have hch1 : membersOf rows R = [R] := membersOf_single hcR hnaR
+      have hi0 : i = 0 := by rw [hch1] at hi; simpa using hi
+      subst hi0
+      have htR : t = R := by rw [membersOf_head] at ht; injection ht with ht; exact ht.symm
+      subst htR
+      rw [hcR] at hct; injection hct with hct; subst hct
+      rw [hch1] at hes_R
+      simp only [List.getLastD_cons, List.getLastD_nil] at hes_R
+      rw [map_resrc_self] at hes_R
+      rw [← hes_R]
+      have hpost0 : postUpTo rows rows.length t = [] := postUpTo_unnamed rows _ t cR hcR hnaR
+      rw [hpost0] at hsim
+      generalize hro : M.rOf t = ro at hsim
+      cases hsim with
+      | impl i' n' rr hk _ => exact absurd hk hka
+      | one hsim =>
+        have hrel1 : (absNode ⟨false, rnf⟩ F (renderNode n)).acts =
+              (absNode ⟨false, rnf⟩ r (mkNode t (toRRow cR) (outOf st t))).acts ∧
+            (absNode ⟨false, rnf⟩ F (renderNode n)).ask =
+              (absNode ⟨false, rnf⟩ r (mkNode t (toRRow cR) (outOf st t))).ask ∧
+            List.Forall₂ (DR F r M s.nodes (outOf st t))
+              (absNode ⟨false, rnf⟩ r (mkNode t (toRRow cR) (outOf st t))).dests
+              (absNode ⟨false, rnf⟩ F (renderNode n)).dests := by
+          cases hno : isNoop cR with
+          | false =>
+            have := node_abs_rel rnf F r M s.nodes t n cR [] (outOf st t) hsim
+              (nodeRowOk_of_ok hokR hnR hno) (fun _ => rfl) rows hcR hokE (hI.nodup _ n hn')
+            rw [List.append_nil] at this; exact this
+          | true =>
+            have hk := kind_of_noop hno
+            have hj : t < rows.length := (List.getElem?_eq_some_iff.mp hcR).1
+            have hrt : testsOf .noOp (outOf st t) ≠ [] := by
+              rw [← hsp]; exact hs.routed t cR hj hcR hno helR
+            have hact : (toRRow cR).act = none := refAct_of_noop hokR hno
+            have hv : ∀ e ∈ (outOf st t).filter (fun e => !e.cond.blank), e.cond.var = implVar (outOf st t) := by
+              intro e he
+              have := hgood.var t cR hcR (.inr hk) e (by rw [hes]; exact he)
+              rw [hes] at this; exact this
+            cases hsim with
+            | plain hk' _ => rw [hk] at hk'; cases hk'
+            | sw _ hk' _ => rw [hk] at hk'; rcases hk' with h | h | h <;> cases h
+            | fix _ _ hk' _ => rw [hk] at hk'; rcases hk' with h | h | h <;> cases h
+            | rnd _ hk' _ => rw [hk] at hk'; cases hk'
+            | nop rr _ hp =>
+              exact nop_abs rnf F r M s.nodes t n cR (outOf st t) rr hk hp hact hrt hv (hI.nodup _ n hn')
+        refine ⟨fun k hk => by rw [hrel1.1, Nat.zero_add], .inl ⟨by rw [hir]; simp [hro], by rw [hrel1.1]; simp, hrel1.2.1, ?_⟩⟩
+        exact hrel1.2.2.imp (fun x y hxy => dr_to_drel _ x y hesub hxy)
+    · -- an action row: the first row of a chain of action rows
+      have hactR : (toRRow cR).act = cR.row.action := act_of_action_row hokR hnR hka
+      have hkt' : kindOf ct.row.type = .action := by
+        rcases hcase with ⟨_, _, h3⟩ | ⟨_, _, h3, _⟩
+        · rw [h3]; exact hka
+        · exact kindOf_of_named h3
+      have hvR : ∀ e ∈ (outOf st R).filter (fun e => !e.cond.blank), e.cond.var = implVar (outOf st R) := by
         intro e he
-        have := hgood.var j c hcj hk e (by rw [hes]; exact he)
+        have := hgood.var R cR hcR (.inl hka) e (by rw [hes]; exact he)
         rw [hes] at this; exact this
-      obtain ⟨h1, h2, h3, h4, h5⟩ := impl_abs rnf F r M s.nodes j n c (outOf st j) i' n' rr hk hp hact hv
-        (hI.nodup _ n' hp.rnode)
-      have hposC2 := hposC' i' n' hro hp.rnode
-      have hF' := findNode_unique F _ n'.uid (renderNode n') hposC2 rfl hU
-      refine ⟨ib j + 1, absNode ⟨false, rnf⟩ F (renderNode n), absNode ⟨false, rnf⟩ F (renderNode n'),
-        by rw [hir]; simp [hro], h1, by rw [absFlow_getElem?, hposC]; rfl, by rw [h2], by rw [h2], ?_,
-        by rw [absFlow_getElem?, hposC2]; rfl, h3, h4, ?_⟩
-      · rw [h2]; simp [destIdx, hF']
-      · exact h5.imp (fun x y hxy => dr_to_drel _ x y (fun e he => (hsub j e he).1) hxy)
+      -- the reference node of the chain's first row with the out-edges of the fused reading
+      obtain ⟨aR', haR'⟩ : ∃ aR', aR' = absNode ⟨false, rnf⟩ r (mkNode R (toRRow cR) (outOf st R)) := ⟨_, rfl⟩
+      have haRacts : aR'.acts = cR.row.action.toList := by
+        rw [haR', (absNode_action_congr rnf r R R (toRRow cR) (toRRow cR) (outOf st R) hka hka hvR).2.2, hactR]
+      -- the compiled node performs the actions of the chain
+      have hbacts : (absNode ⟨false, rnf⟩ F (renderNode n)).acts =
+          cR.row.action.toList ++ postUpTo rows rows.length R := by
+        generalize hro : M.rOf R = ro at hsim
+        cases hsim with
+        | one hsim =>
+          have := (node_abs_rel rnf F r M s.nodes R n cR _ (outOf st R) hsim
+            (nodeRowOk_of_ok hokR hnR (by
+              cases hh : isNoop cR with
+              | false => rfl
+              | true => have := kind_of_noop hh; rw [hka] at this; cases this))
+            (fun h => absurd hka h) rows hcR hokE (hI.nodup _ n hn')).1
+          rw [this, ← haR', haRacts]
+        | impl i' n' rr hk hp =>
+          have := (impl_abs rnf F r M s.nodes R n cR _ (outOf st R) i' n' rr hk hp hactR hvR
+            (hI.nodup _ n' hp.rnode)).2.1
+          rw [this, ← haR', haRacts]
+      -- the own action of the row of the chain
+      obtain ⟨aT, haT⟩ : ∃ aT, aT = absNode ⟨false, rnf⟩ r (mkNode t (toRRow ct) (outE.filter (·.src = t))) := ⟨_, rfl⟩
+      rw [← haT]
+      have hactsT : ∀ (hacts : aT.acts = (toRRow ct).act.toList),
+          (∀ k, k < aT.acts.length → (absNode ⟨false, rnf⟩ F (renderNode n)).acts[i + k]? = aT.acts[k]?) ∧
+          ((membersOf rows R).length = i + 1 →
+            (absNode ⟨false, rnf⟩ F (renderNode n)).acts.length = i + aT.acts.length) := by
+        intro hacts
+        rw [hbacts, hacts]
+        rcases hcase with ⟨hi0, htR, hctR⟩ | ⟨hipos, hnaR, hnat, hmt⟩
+        · subst hi0 hctR
+          rw [hactR]
+          refine ⟨fun k hk => by rw [Nat.zero_add, List.getElem?_append_left hk], fun hlen => ?_⟩
+          have : postUpTo rows rows.length R = [] := by
+            cases hna : isNamedAct ct with
+            | false => exact postUpTo_unnamed rows _ R ct hcR hna
+            | true =>
+              have := (hpostlen hna).1
+              rw [hlen] at this
+              exact List.eq_nil_of_length_eq_zero (by omega)
+          rw [this]; simp
+        · obtain ⟨aR, haR, _⟩ := act_of_named hokR hnaR
+          obtain ⟨at', hat, hat2⟩ := act_of_named (hfr ct (List.mem_of_getElem? hct)) hnat
+          obtain ⟨hpl, hpi⟩ := hpostlen hnaR
+          rw [haR, hat2]
+          obtain ⟨i', rfl⟩ : ∃ i', i = i' + 1 := ⟨i - 1, by omega⟩
+          refine ⟨fun k hk => ?_, fun hlen => ?_⟩
+          · have hk0 : k = 0 := by simpa using hk
+            subst hk0
+            simp only [Option.toList, List.singleton_append, Nat.add_zero, List.getElem?_cons_succ,
+              List.getElem?_cons_zero]
+            rw [hpi i' t ht, hct]; simp [hat]
+          · simp only [Option.toList, List.singleton_append, List.length_cons, List.length_nil]
+            rw [hpl, hlen]; omega
+      by_cases hlastrow : i + 1 < (membersOf rows R).length
+      · -- not the last row of its chain: it leads to the next one, and nowhere else
+        obtain ⟨t', ht'⟩ : ∃ t', (membersOf rows R)[i + 1]? = some t' := ⟨_, List.getElem?_eq_getElem hlastrow⟩
+        have hmt' : t' ∈ (membersOf rows R).tail := by
+          rw [List.mem_iff_getElem?]
+          exact ⟨i, by rw [List.getElem?_tail]; exact ht'⟩
+        obtain ⟨hnaR, _, ct', hct', hmg', hna', _⟩ := membersOf_mem_tail hcR hmt'
+        obtain ⟨e, hefil, hetgt, heb⟩ := hlink (t, t') (zip_tail_mem _ i t t' ht ht')
+        simp only at hefil hetgt
+        have hkt'' : (kindOf ct'.row.type).isNode = true := by rw [kindOf_of_named hna']; rfl
+        have hnat : isNamedAct ct = true := by
+          rcases hcase with ⟨_, _, h3⟩ | ⟨_, _, h3, _⟩
+          · rw [h3]; exact hnaR
+          · exact h3
+        obtain ⟨at', hat, hat2⟩ := act_of_named (hfr ct (List.mem_of_getElem? hct)) hnat
+        obtain ⟨at'', hat', hat2'⟩ := act_of_named (hfr ct' (List.mem_of_getElem? hct')) hna'
+        have haTe : aT = { acts := [at'], ask := none, dests := [some (some (iaR t'))] } := by
+          rw [haT, hefil, mkNode_plain t (toRRow ct) [e] hkt' (fun e' he' => by
+            rw [List.mem_singleton.mp he']; exact heb), absNode_plain_ref, hat2]
+          simp only [Option.toList, List.getLast?_singleton, Option.bind_some, hetgt]
+          have := hidxR t' ct' hct' hkt''
+          simp only [Option.bind_some] at this
+          rw [this]
+        have hacts : aT.acts = (toRRow ct).act.toList := by rw [haTe, hat2]; rfl
+        refine ⟨(hactsT hacts).1, .inr (.inr ⟨(R, i + 1), ?_, ?_, ?_, ?_, ?_, ?_, ?_⟩)⟩
+        · rw [hV]; exact ⟨cR, hcR, hnR, helR, hlastrow⟩
+        · rw [haTe]; simp
+        · rw [haTe]
+        · rw [haTe, hiaP]
+          simp only
+          have : mem R (i + 1) = t' := by rw [hmem]; simp [ht']
+          rw [this]
+        · rw [hibP]
+        · rw [hoff, haTe]; rfl
+        · have hposR' := hrowR t' ct' hct' hkt''
+          refine ⟨absNode ⟨false, rnf⟩ r (mkNode t' (toRRow ct') (outE.filter (·.src = t'))), ?_, ?_⟩
+          · rw [hiaP]
+            simp only
+            have : mem R (i + 1) = t' := by rw [hmem]; simp [ht']
+            rw [this, absFlow_getElem?, hposR']; rfl
+          · rw [mkNode_action_acts _ r t' (toRRow ct') _ (kindOf_of_named hna'), hat2']; simp
+      · -- the last row of its chain: the node is left as this row is left
+        have hlen : (membersOf rows R).length = i + 1 := by omega
+        have hgl : (membersOf rows R).getLastD R = t := getLastD_of_getElem? _ R t i hlen.symm ht
+        rw [hgl] at hes_R
+        have hT : mkNode t (toRRow ct) (outOf st R) = mkNode t (toRRow ct) (outE.filter (·.src = t)) := by
+          rw [hes_R, mkNode_action_resrc _ _ _ R hkt']
+        obtain ⟨hcask, hcdests, hcacts⟩ := absNode_action_congr rnf r t R (toRRow ct) (toRRow cR) (outOf st R) hkt' hka hvR
+        rw [hT, ← haT, ← haR'] at hcask hcdests
+        rw [hT, ← haT] at hcacts
+        obtain ⟨hacts1, hacts2⟩ := hactsT hcacts
+        generalize hro : M.rOf R = ro at hsim
+        cases hsim with
+        | one hsim =>
+          obtain ⟨_, h2, h3⟩ := node_abs_rel rnf F r M s.nodes R n cR _ (outOf st R) hsim
+            (nodeRowOk_of_ok hokR hnR (by
+              cases hh : isNoop cR with
+              | false => rfl
+              | true => have := kind_of_noop hh; rw [hka] at this; cases this))
+            (fun h => absurd hka h) rows hcR hokE (hI.nodup _ n hn')
+          rw [← haR'] at h2 h3
+          refine ⟨hacts1, .inl ⟨by rw [hir]; simp [hro], hacts2 hlen, by rw [h2, hcask], ?_⟩⟩
+          rw [hcdests]
+          exact h3.imp (fun x y hxy => dr_to_drel _ x y hesub hxy)
+        | impl i' n' rr hk hp =>
+          obtain ⟨h1, h2, h3, h4, h5⟩ := impl_abs rnf F r M s.nodes R n cR _ (outOf st R) i' n' rr hk hp hactR hvR
+            (hI.nodup _ n' hp.rnode)
+          rw [← haR'] at h1 h2 h4 h5
+          have hposC2 := hposC' i' n' hro hp.rnode
+          have hF' := findNode_unique F _ n'.uid (renderNode n') hposC2 rfl hU
+          refine ⟨hacts1, .inr (.inl ⟨ibR R + 1, absNode ⟨false, rnf⟩ F (renderNode n'), by rw [hir]; simp [hro],
+            by rw [hcask]; exact h1, hacts2 hlen, by rw [h2], ?_, by rw [absFlow_getElem?, hposC2]; rfl, h3,
+            by rw [h4, hcask], ?_⟩)⟩
+          · rw [h2]; simp [destIdx, hF']
+          · rw [hcdests]
+            exact h5.imp (fun x y hxy => dr_to_drel _ x y hesub hxy)
   -- where the two flows start
   have hstart : (absFlow ⟨false, rnf⟩ r = [] ∧ absFlow ⟨false, rnf⟩ F = []) ∨
-      (absFlow ⟨false, rnf⟩ r ≠ [] ∧ absFlow ⟨false, rnf⟩ F ≠ [] ∧ ∃ j0, V j0 ∧ ia j0 = 0 ∧ ib j0 = 0) := by
-    have hnotV : ∀ j, ¬ V j → fR j = none ∧ gC j = [] := by
+      (absFlow ⟨false, rnf⟩ r ≠ [] ∧ absFlow ⟨false, rnf⟩ F ≠ [] ∧
+        ∃ j0, V j0 ∧ off j0 = 0 ∧ ia j0 = 0 ∧ ib j0 = 0) := by
+    obtain ⟨W, hW⟩ : ∃ W : Nat → Prop, W = fun j => ∃ c, rows[j]? = some c ∧ (kindOf c.row.type).isNode = true := ⟨_, rfl⟩
+    have hnotW : ∀ j, ¬ W j → fR j = none ∧ gC j = [] := by
       intro j hj
-      rw [hV] at hj
+      rw [hW] at hj
       rw [hfR, hgC]
       cases hcj : rows[j]? with
       | none => simp [nodeIdxs, hcj]
       | some c =>
-        have : isNodeRow c = false := by
-          cases hh : isNodeRow c
+        have hk0 : (kindOf c.row.type).isNode = false := by
+          cases hh : (kindOf c.row.type).isNode
           · rfl
           · exact absurd ⟨c, hcj, hh⟩ hj
-        simp [nodeIdxs, hcj, this]
-    by_cases hex : ∃ j, V j
+        have : isNodeRow c = false := by unfold isNodeRow; rw [hk0]; rfl
+        simp [nodeIdxs, hcj, this, hk0]
+    by_cases hex : ∃ j, W j
     · right
       -- the first node-producing row
-      obtain ⟨j0, hj0, hmin⟩ : ∃ j0, V j0 ∧ ∀ j, j < j0 → ¬ V j := by
+      obtain ⟨j0, hj0, hmin⟩ : ∃ j0, W j0 ∧ ∀ j, j < j0 → ¬ W j := by
         obtain ⟨j, hj⟩ := hex
         induction j using Nat.strong_induction_on with
         | _ j ih =>
-          by_cases hm : ∃ j', j' < j ∧ V j'
+          by_cases hm : ∃ j', j' < j ∧ W j'
           · obtain ⟨j', hlt, hj'⟩ := hm
             exact ih j' hlt hj'
           · exact ⟨j, hj, fun j' hlt hj' => hm ⟨j', hlt, hj'⟩⟩
-      have hia0 : ia j0 = 0 := by
+      have hia0 : iaR j0 = 0 := by
         rw [hia]
         simp only
         rw [filterMap_nil_of]; rfl
@@ -616,8 +1144,8 @@ theorem fragment_trace (rnf : Bool) (testTypes : List Str) (rows : List CRow) (o
           have := List.mem_take_iff_getElem.mp hx
           obtain ⟨i, hi, rfl⟩ := this
           simp at hi ⊢; omega
-        exact (hnotV x (hmin x this)).1
-      have hib0 : ib j0 = 0 := by
+        exact (hnotW x (hmin x this)).1
+      have hib0 : ibR j0 = 0 := by
         rw [hib]
         simp only
         rw [flatMap_nil_of]; rfl
@@ -626,26 +1154,150 @@ theorem fragment_trace (rnf : Bool) (testTypes : List Str) (rows : List CRow) (o
           have := List.mem_take_iff_getElem.mp hx
           obtain ⟨i, hi, rfl⟩ := this
           simp at hi ⊢; omega
-        exact (hnotV x (hmin x this)).2
+        exact (hnotW x (hmin x this)).2
       have hj0' := hj0
-      rw [hV] at hj0'
+      rw [hW] at hj0'
       obtain ⟨c, hcj, hn⟩ := hj0'
+      -- it is not a `no_op` row
+      have hfind : rows.find? (fun c => (kindOf c.row.type).isNode) = some c := by
+        refine find?_first _ rows j0 c hcj hn ?_
+        intro i y hi hy
+        cases hh : (kindOf y.row.type).isNode with
+        | false => rfl
+        | true => exact absurd (by rw [hW]; exact ⟨y, hy, hh⟩) (hmin i hi)
+      have hno : isNoop c = false := by
+        unfold firstOk at hfirst
+        rw [hfind] at hfirst
+        simpa using hfirst
+      -- … and it is not merged: no action row precedes it
+      have hnr : isNodeRow c = true := by
+        unfold isNodeRow
+        rw [hn, Bool.true_and]
+        cases hmm : c.merged && isNamedAct c with
+        | false => rfl
+        | true =>
+          exfalso
+          simp only [Bool.and_eq_true] at hmm
+          have := ha j0 c hcj
+          rw [hmm.1] at this
+          unfold mergeAt at this
+          rw [hcj] at this
+          simp only [hmm.2, Bool.true_and] at this
+          have := this.symm
+          rw [List.any_eq_true] at this
+          obtain ⟨c', hc', hp'⟩ := this
+          obtain ⟨i', hi'⟩ := List.mem_iff_getElem?.mp hc'
+          rw [List.getElem?_take] at hi'
+          split at hi'
+          · rename_i hlt
+            simp only [Bool.and_eq_true] at hp'
+            exact hmin i' hlt (by rw [hW]; exact ⟨c', hi', by rw [kindOf_of_named hp'.1]; rfl⟩)
+          · cases hi'
+      have hel : M.el j0 = false := hrel.elno j0 c hcj hno
       have hposR := hrowR j0 c hcj hn
-      obtain ⟨n, _, _, hposC, _⟩ := hrowC j0 c hcj hn
-      refine ⟨?_, ?_, j0, hj0, hia0, hib0⟩
+      obtain ⟨n, _, _, hposC, _⟩ := hrowC j0 c hcj hnr hel
+      refine ⟨?_, ?_, (j0, 0), hV0 j0 c hcj hnr hel, by rw [hoff], by rw [hiaP]; simp only; rw [hmem0, hia0],
+        by rw [hibP]; exact hib0⟩
       · intro h0
-        have := absFlow_getElem? ⟨false, rnf⟩ r (ia j0)
+        have := absFlow_getElem? ⟨false, rnf⟩ r (iaR j0)
         rw [h0, hposR] at this; simp at this
       · intro h0
-        have := absFlow_getElem? ⟨false, rnf⟩ F (ib j0)
+        have := absFlow_getElem? ⟨false, rnf⟩ F (ibR j0)
         rw [h0, hposC] at this; simp at this
     · left
-      have hall : ∀ j, ¬ V j := fun j hj => hex ⟨j, hj⟩
+      have hall : ∀ j, ¬ W j := fun j hj => hex ⟨j, hj⟩
       constructor
       · unfold absFlow
-        rw [hrn2, filterMap_nil_of _ _ (fun x _ => (hnotV x (hall x)).1)]; rfl
+        rw [hrn2, filterMap_nil_of _ _ (fun x _ => (hnotW x (hall x)).1)]; rfl
       · unfold absFlow
-        rw [hFn, flatMap_nil_of _ _ (fun x _ => (hnotV x (hall x)).2)]; rfl
-  exact trace_eq_of_split ⟨false, rnf⟩ r F V ia ib ir hsplit hstart env len
+        rw [hFn, flatMap_nil_of _ _ (fun x _ => (hnotW x (hall x)).2)]; rfl
+  exact trace_eq_of_fuse ⟨false, rnf⟩ r F V ia ib off ir hfuse hstart env len
+
+/-- **the refinement theorem on the fragment, at the level of traces** -/
+theorem fragment_trace (rnf : Bool) (testTypes : List Str) (rows : List CRow) (out : Out) (r : Flow)
+    (hf : inFragment rows = true)
+    (hc : compile RefFlow.noArgsTests testTypes (rows.map toEvent) = .ok out)
+    (hr : refFlow (rows.map toRRow) = .ok r) (env : Nat → Nat) (len : Nat) :
+    trace ⟨false, rnf⟩ r env len = trace ⟨false, rnf⟩ (renderOut out) env len := by
+  rw [← annotate_toEvent] at hc
+  rw [← annotate_toRRow] at hr
+  obtain ⟨outT, hp1, _⟩ := refFlow_nodes _ _ hr
+  obtain ⟨outF, hpF, hfr, hgood, hshape, hsched, hfirst, hch⟩ := good_of_fragment rows outT hf hp1
+  exact fragment_traceA rnf testTypes (annotate rows) out r outT outF hfr hp1 hpF hgood hshape hsched hfirst hch hc hr env len
+
+/-! ### sheets without merged rows: the fused reading is the reference reading
+
+so the clauses about merged rows hold by themselves and the fragment is what it was without them -/
+
+theorem fold_pass1F_unmerged (rows : List CRow) : ∀ (l : List CRow) (k : Nat) (st : P1),
+    (∀ c ∈ l, (c.merged && isNamedAct c) = false) →
+    (l.zipIdx k).foldlM (fun st (p : CRow × Nat) => pass1RowF rows st p.2 p.1) st =
+      ((l.map toRRow).zipIdx k).foldlM (fun st (p : RRow × Nat) => pass1Row st p.2 p.1) st := by
+  intro l
+  induction l with
+  | nil => intro k st _; rfl
+  | cons c l ih =>
+    intro k st h
+    simp only [List.zipIdx_cons, List.map_cons, List.foldlM_cons]
+    have hc : pass1RowF rows st k c = pass1Row st k (toRRow c) := by
+      unfold pass1RowF; rw [h c (by simp)]; rfl
+    rw [hc]
+    cases pass1Row st k (toRRow c) with
+    | error e => rfl
+    | ok st1 => exact ih (k + 1) st1 (fun c' hc' => h c' (by simp [hc']))
+
+/-- without merged rows the fused reading of a sheet is its reference reading -/
+theorem pass1F_unmerged (rows : List CRow) (h : ∀ c ∈ rows, (c.merged && isNamedAct c) = false) :
+    pass1F rows = pass1 (rows.map toRRow) := by
+  unfold pass1F pass1
+  have := fold_pass1F_unmerged rows rows 0 {} h
+  simp only [bind, Except.bind] at this ⊢
+  rw [show (fun st (x : CRow × Nat) => match x with | (c, k) => pass1RowF rows st k c) =
+      (fun st (p : CRow × Nat) => pass1RowF rows st p.2 p.1) from rfl,
+    show (fun st (x : RRow × Nat) => match x with | (r, k) => pass1Row st k r) =
+      (fun st (p : RRow × Nat) => pass1Row st p.2 p.1) from rfl, this]
+
+/-- … and the clause that ties the two readings holds by itself -/
+theorem chainsOk_unmerged (rows : List CRow) (h : ∀ c ∈ rows, (c.merged && isNamedAct c) = false)
+    (out : List OutEdge) (hp : pass1 (rows.map toRRow) = .ok out) : chainsOk rows out out = true := by
+  unfold chainsOk
+  simp only [Bool.and_eq_true, List.all_eq_true, List.mem_range]
+  refine ⟨fun e he => ?_, fun R hR => ?_⟩
+  · have := pass1_targets _ _ hp e he
+    unfold tgtOwns
+    cases ht : e.tgt with
+    | exit => rfl
+    | row t =>
+      rw [ht] at this
+      obtain ⟨rr, hrr, hrk⟩ := this
+      simp only [List.getElem?_map] at hrr
+      cases hct : rows[t]? with
+      | none => rw [hct] at hrr; cases hrr
+      | some ct =>
+        rw [hct] at hrr
+        simp only [Option.map_some, Option.some.injEq] at hrr
+        have hm := h ct (List.mem_of_getElem? hct)
+        rw [← hrr] at hrk
+        have hk : (kindOf ct.row.type).isNode = true := hrk
+        simp only [hct, ownsNode, hm, hk, Bool.not_false, Bool.and_self]
+  · obtain ⟨cR, hcR⟩ : ∃ cR, rows[R]? = some cR := ⟨rows[R], by simp [hR]⟩
+    rw [hcR]
+    simp only
+    have hch : membersOf rows R = [R] := by
+      unfold membersOf
+      rw [hcR]
+      simp only
+      split
+      · congr 1
+        rw [List.filter_eq_nil_iff]
+        intro i _
+        unfold mergedNamed
+        cases hci : rows[i]? with
+        | none => simp
+        | some ci => simp [h ci (List.mem_of_getElem? hci)]
+      · rfl
+    rw [hch]
+    simp only [List.tail_cons, List.zip_nil_right, List.all_nil, Bool.true_and, List.getLastD_cons,
+      List.getLastD_nil, map_resrc_self, decide_true, Bool.or_true]
 
 end Rpft.CoreSheet
